@@ -10,6 +10,11 @@ OPS = ['append', 'appendleft', 'pop', 'popleft', 'clear', 'take_token', 'len']
 
 
 def scenarios(seed, tier, failed):
+    # forced interleavings of posting threads and the consumer (sampled schedules; see replay/ld_schedules.py)
+    from replay import ld_schedules
+    for k, sc in enumerate(ld_schedules.scenarios(seed, tier)):
+        if k < (40 if tier == 'quick' else 1500):
+            yield sc
     # exhaustive short histories on capacity 2, then random longer ones on capacity 2..4
     for n in range(1, 6):
         for ops in itertools.product(OPS[:6], repeat=n):
@@ -20,6 +25,10 @@ def scenarios(seed, tier, failed):
 
 
 def run(sc):
+    if sc.get('kind') == 'ld-schedule':
+        from replay import ld_schedules
+        ok, detail = ld_schedules.run_schedule(sc)
+        return ok, detail, 'LockingDeque.append'
     from miros.hsm import HsmWithQueues
     from miros.activeobject import LockingDeque
     M = sc['M']
